@@ -190,7 +190,11 @@ impl Problem {
                 Instruction::DeclarePoint(_) => {}
                 Instruction::DeclareCircle(_) => {}
                 Instruction::DeclareArc(_) => {}
-                Instruction::Line(_) => {}
+                Instruction::Line(Line { p0, p1 }) => {
+                    // A line adds no constraint, but its endpoints must still be known points.
+                    datum_point_for_label(p0)?;
+                    datum_point_for_label(p1)?;
+                }
                 Instruction::CircleRadius(CircleRadius { circle, radius }) => {
                     let circ = &circle.0;
                     let center_id = datum_point_for_label(&Label(format!("{circ}.center")))?;
